@@ -4,12 +4,12 @@ from props.common import TRUSTED_BASE, ASSUMPTIONS as _A
 
 ID = 'C05'
 LEAN_MODULES = ['HidVerif.Props.C05']
-THEOREMS = ['HidVerif.Props.C05.' + n for n in ('div_guard_exact', 'index_guard_exact', 'length_guard_exact',
+THEOREMS = ['HidVerif.Props.C05.' + n for n in ('core_division_by_zero', 'div_guard_exact', 'index_guard_exact', 'length_guard_exact',
                                                  'length_guard_arith', 'error_stub_trace')] + \
            ['HidVerif.Sphinx.guard_pass', 'HidVerif.Sphinx.guard_fail', 'HidVerif.Sphinx.index_guard_arith']
 TRUSTED = TRUSTED_BASE + ['Compiler/Templates.lean: hand-written guard templates, tied to the generator by the conformance check '
                           '(hidmodel conform) on every compiled program']
-ASSUMPTIONS = _A + ['placement of the guards before every faulting operation in whole programs is validated by fault injection, '
+ASSUMPTIONS = _A + ['for division by zero in the core sub-language the whole-program statement is PROVED (core_division_by_zero, tied by the core correspondence suite); otherwise placement of the guards before every faulting operation in whole programs is validated by fault injection, '
                     'not proved']
 RULE = ('fault-injection generator: division/modulo x position (value, branch, compound on local/global/element, in call/try/loop), '
         'indexing x element type x storage class x access form, string indexing, dynamic lengths x element type, nonlocal preempt; '
@@ -30,6 +30,7 @@ def run(ctx):
     j, _ = suites.gen_jobs(ctx, ctx.budget(200, 3000), tt=True, faults=0.3, prefix='rf')
     jobs += j
     ctx.stats['forms'] = kinds
+    jobs += suites.core_suite(ctx, ctx.budget(160, 2500), configs=((2, 100, False), (3, 40, False), (4, 30, False), (8, 12, False)), faults=0.5)
     suites.conformance(ctx, jobs[:ctx.budget(400, 3000)])
     tally, bad, res = suites.differential(ctx, jobs, None, label='fault-injection')
     flags = {}
